@@ -124,3 +124,344 @@ Qed.
 
 Corollary decode_node_top_no_panic : forall hash buf gen, decode_node_top hash buf gen <> Panic.
 Proof. intros. apply decode_node_no_panic. Qed.
+
+(* ------------------------------------------------------------------ (2) fuel adequacy *)
+
+Lemma split_lst_lt b c r : split b = Some (KLst, c, r) -> (length c + length r < length b)%nat.
+Proof.
+  intros H. apply split_canon in H as [-> _]. rewrite app_length.
+  pose proof (enc_KLst_length c). lia.
+Qed.
+Lemma split_rest_lt b k c r : split b = Some (k, c, r) -> (length r < length b)%nat.
+Proof.
+  intros H. apply split_canon in H as [-> _]. rewrite app_length.
+  destruct (enc_nonempty k c) as (h & t & ->). cbn [length]. lia.
+Qed.
+Lemma split_list_lt b c r : split_list b = Some (c, r) -> (length c < length b)%nat.
+Proof.
+  unfold split_list. destruct (split b) as [[[[|] c'] r']|] eqn:E; try discriminate.
+  intros H. injection H as <- <-. apply split_lst_lt in E. lia.
+Qed.
+Lemma split_string_rest_lt b c r : split_string b = Some (c, r) -> (length r < length b)%nat.
+Proof.
+  unfold split_string. destruct (split b) as [[[[|] c'] r']|] eqn:E; try discriminate.
+  intros H. injection H as <- <-. now apply split_rest_lt in E.
+Qed.
+
+Lemma decode_ref_of_rest rec b n r : decode_ref_of rec b = Ok (n, r) -> (length r < length b)%nat.
+Proof.
+  unfold decode_ref_of. destruct (split b) as [[[[|] c] r']|] eqn:E; [| |discriminate].
+  - apply split_rest_lt in E. destruct (length c) as [|m].
+    + intros H. injection H as <- <-. exact E.
+    + do 31 (destruct m as [|m]; [discriminate|]). destruct m; [|discriminate].
+      intros H. injection H as <- <-. exact E.
+  - apply split_rest_lt in E. destruct (Nat.ltb 32 (length b - length r')); [discriminate|].
+    destruct (rec b); cbn [bind]; try discriminate. intros H. injection H as <- <-. exact E.
+Qed.
+
+Lemma decode_ref_of_nf rec b : rec b <> OutOfFuel -> decode_ref_of rec b <> OutOfFuel.
+Proof.
+  intros Hrec. unfold decode_ref_of.
+  destruct (split b) as [[[[|] c] r]|]; [| |discriminate].
+  - destruct (length c) as [|n]; [discriminate|].
+    do 31 (destruct n as [|n]; [discriminate|]). destruct n; discriminate.
+  - destruct (Nat.ltb 32 (length b - length r)); [discriminate|].
+    destruct (rec b); cbn [bind]; congruence.
+Qed.
+
+Lemma full_go_nf dref fl (m : nat) :
+  (forall b, (length b <= m)%nat -> dref b <> OutOfFuel) ->
+  (forall b n r, dref b = Ok (n, r) -> (length r <= length b)%nat) ->
+  forall i elems acc, (length elems <= m)%nat -> full_go dref fl i elems acc <> OutOfFuel.
+Proof.
+  intros Hd Hr. induction i as [|i IH]; intros elems acc Hl.
+  - rewrite full_go_O. destruct (split_string elems) as [[v r]|]; discriminate.
+  - rewrite full_go_S. specialize (Hd elems Hl). specialize (Hr elems).
+    destruct (dref elems) as [[cld rest]| | | |]; cbn [bind]; [|congruence..].
+    apply IH. specialize (Hr cld rest eq_refl). clear - Hr Hl. lia.
+Qed.
+
+Lemma decode_body_nf rec hash buf gen :
+  (forall b, (length b < length buf)%nat -> rec b <> OutOfFuel) ->
+  decode_body rec hash buf gen <> OutOfFuel.
+Proof.
+  intros Hrec. unfold decode_body. destruct buf as [|b0 buf']; [discriminate|].
+  set (buf := b0 :: buf') in *.
+  destruct (split_list buf) as [[elems r0]|] eqn:Es; [|discriminate].
+  apply split_list_lt in Es.
+  cbv zeta. destruct (count_or_0 elems =? 2).
+  - destruct (split_string elems) as [[kbuf rest]|] eqn:Ek; [|discriminate].
+    apply split_string_rest_lt in Ek.
+    destruct (has_term (compact_to_hex kbuf)).
+    + destruct (split_string rest) as [[v r1]|]; discriminate.
+    + assert (Hr : decode_ref_of rec rest <> OutOfFuel).
+      { apply decode_ref_of_nf. apply Hrec. clear - Es Ek. lia. }
+      destruct (decode_ref_of rec rest) as [[r x]| | | |]; cbn [bind]; congruence.
+  - destruct (count_or_0 elems =? 17); [|discriminate].
+    apply (full_go_nf _ _ (length elems)).
+    + intros b Hb. apply decode_ref_of_nf. apply Hrec. clear - Es Hb. lia.
+    + intros b n r H. apply decode_ref_of_rest in H. clear - H. lia.
+    + apply le_n.
+Qed.
+
+Theorem decode_node_fuel : forall fuel hash buf gen,
+  (length buf < fuel)%nat -> decode_node fuel hash buf gen <> OutOfFuel.
+Proof.
+  induction fuel as [|fuel IH]; intros hash buf gen Hl; [inversion Hl|].
+  rewrite decode_node_S. apply decode_body_nf. intros b Hb. apply IH.
+  clear - Hl Hb. lia.
+Qed.
+
+Theorem decode_node_top_fuel : forall hash buf gen, decode_node_top hash buf gen <> OutOfFuel.
+Proof. intros. unfold decode_node_top. apply decode_node_fuel. apply Nat.lt_succ_diag_r. Qed.
+
+(* ------------------------------------------------------------------ (3) well-formedness of decoded nodes *)
+
+(* slot 16 of a decoded full node: nil or a value *)
+Definition slot16 (c : node) : Prop := c = NNil \/ exists v, c = NVal v.
+
+(* a decoded node in child position: nil, a hash reference, or an embedded
+   short / full node.  A short node is a leaf (terminated key over a value) or
+   an extension (pure nibble path over a child); a full node has 17 slots,
+   0..15 children, slot 16 nil or a value. *)
+Inductive dwf_child : node -> Prop :=
+| dw_nil : dwf_child NNil
+| dw_hash h : dwf_child (NHash h)
+| dw_leaf k v f : has_term k = true -> pathb (removelast k) = true -> dwf_child (NShort k (NVal v) f)
+| dw_ext k c f : pathb k = true -> dwf_child c -> dwf_child (NShort k c f)
+| dw_full cs16 last f : length cs16 = 16%nat -> Forall dwf_child cs16 -> slot16 last ->
+    dwf_child (NFull (cs16 ++ [last]) f).
+
+Definition is_sf (n : node) : bool := match n with NShort _ _ _ | NFull _ _ => true | _ => false end.
+(* what decodeNode returns: a short or a full node *)
+Definition dwf (n : node) : Prop := dwf_child n /\ is_sf n = true.
+
+(* the shape asked for, as inversion lemmas *)
+Lemma dwf_short_inv k c f : dwf (NShort k c f) ->
+  (has_term k = true /\ exists v, c = NVal v /\ pathb (removelast k) = true) \/
+  (pathb k = true /\ dwf_child c).
+Proof. intros [H _]. inversion H; subst; eauto. Qed.
+Lemma dwf_full_inv cs f : dwf (NFull cs f) ->
+  length cs = 17%nat /\ (forall i, (i < 16)%nat -> dwf_child (nth i cs NNil)) /\ slot16 (nth 16 cs NNil).
+Proof.
+  intros [H _]. inversion H as [| | | |cs16 last f' Hl Hf Hs]; subst.
+  split; [rewrite app_length, Hl; reflexivity|]. split.
+  - intros i Hi. rewrite app_nth1 by (rewrite Hl; exact Hi).
+    rewrite Forall_forall in Hf. apply Hf. apply nth_In. rewrite Hl. exact Hi.
+  - rewrite app_nth2 by (rewrite Hl; apply le_n). rewrite Hl, Nat.sub_diag. exact Hs.
+Qed.
+Lemma dwf_child_cases c : dwf_child c <-> c = NNil \/ (exists h, c = NHash h) \/ dwf c.
+Proof.
+  split.
+  - intros H. destruct c; [now left| | |right; left; eauto|inversion H];
+      right; right; (split; [exact H|reflexivity]).
+  - intros [->|[(h & ->)|[H _]]]; [constructor|constructor|exact H].
+Qed.
+
+(* ---- keys ---- *)
+Fixpoint hexn (s : bytes) : bytes :=
+  match s with
+  | [] => []
+  | b :: t => n2b (b2n b / 16) :: n2b (b2n b mod 16) :: hexn t
+  end.
+Lemma keybytes_to_hex_hexn s : keybytes_to_hex s = hexn s ++ [term].
+Proof. induction s as [|b t IH]; [reflexivity|]. cbn [keybytes_to_hex hexn app]. now rewrite IH. Qed.
+Lemma nibb_hi b : nibb (n2b (b2n b / 16)) = true.
+Proof.
+  assert (H : b2n b / 16 < 16).
+  { apply N.div_lt_upper_bound; [discriminate|]. pose proof (b2n_lt b). lia. }
+  unfold nibb. rewrite b2n_n2b by (clear - H; lia). clear - H. lia.
+Qed.
+Lemma nibb_lo b : nibb (n2b (b2n b mod 16)) = true.
+Proof.
+  assert (H : b2n b mod 16 < 16) by (apply N.mod_lt; discriminate).
+  unfold nibb. rewrite b2n_n2b by (clear - H; lia). clear - H. lia.
+Qed.
+Lemma pathb_hexn s : pathb (hexn s) = true.
+Proof.
+  induction s as [|b t IH]; [reflexivity|].
+  cbn [hexn pathb forallb]. rewrite nibb_hi, nibb_lo. exact IH.
+Qed.
+(* (TrieTheorems.tkeyb_hex, reproved here) *)
+Lemma tkeyb_keybytes_to_hex key : tkeyb (keybytes_to_hex key) = true.
+Proof. rewrite keybytes_to_hex_hexn. apply tkeyb_app; [apply pathb_hexn|reflexivity]. Qed.
+
+Lemma has_term_snoc p : has_term (p ++ [term]) = true.
+Proof.
+  unfold has_term. destruct (p ++ [term]) eqn:E; [destruct p; discriminate|].
+  rewrite <- E, last_last. apply byte_eqb_refl.
+Qed.
+Lemma pathb_no_term k : pathb k = true -> has_term k = false.
+Proof.
+  intros H. destruct k as [|a k]; [reflexivity|].
+  destruct (@exists_last _ (a :: k)) as (p & x & E); [discriminate|].
+  rewrite E in *. rewrite pathb_app in H. apply andb_true_iff in H as [_ H].
+  cbn [pathb forallb] in H. rewrite andb_true_r in H.
+  unfold has_term. destruct (p ++ [x]) eqn:E'; [reflexivity|]. rewrite <- E', last_last.
+  destruct (byte_eqb_spec x term) as [->|]; [now rewrite nibb_term in H|reflexivity].
+Qed.
+
+Lemma chop_cases x : N.to_nat (2 - N.land x 1) = 1%nat \/ N.to_nat (2 - N.land x 1) = 2%nat.
+Proof.
+  pose proof (N.land_ones x 1) as H. change (N.ones 1) with 1 in H. change (2 ^ 1) with 2 in H.
+  assert (Hm : x mod 2 < 2) by (apply N.mod_lt; discriminate).
+  rewrite H. clear H. destruct (N.eq_dec (x mod 2) 0) as [E|E]; [right|left]; lia.
+Qed.
+
+(* compactToHex yields nibbles, with at most a final terminator *)
+Lemma compact_to_hex_shape c :
+  pathb (compact_to_hex c) = true \/ (exists p, compact_to_hex c = p ++ [term] /\ pathb p = true).
+Proof.
+  destruct c as [|c0 c']; [left; reflexivity|].
+  unfold compact_to_hex. rewrite keybytes_to_hex_hexn, removelast_last. cbn [hexn].
+  pose proof (nibb_hi c0) as H0. pose proof (nibb_lo c0) as H1. pose proof (pathb_hexn c') as Hr.
+  set (b0 := n2b (b2n c0 / 16)) in *. set (b1 := n2b (b2n c0 mod 16)) in *. set (rest := hexn c') in *.
+  destruct (2 <=? b2n b0).
+  - right. cbn [app]. destruct (chop_cases (b2n b0)) as [-> | ->]; cbn [skipn].
+    + exists (b1 :: rest). split; [reflexivity|]. cbn [pathb forallb]. now rewrite H1.
+    + exists rest. split; [reflexivity|exact Hr].
+  - left. destruct (chop_cases (b2n b0)) as [-> | ->]; cbn [skipn].
+    + cbn [pathb forallb]. now rewrite H1.
+    + exact Hr.
+Qed.
+
+(* ---- the decoder ---- *)
+Lemma decode_ref_of_wf rec : (forall b m, rec b = Ok m -> dwf m) ->
+  forall b n r, decode_ref_of rec b = Ok (n, r) -> dwf_child n.
+Proof.
+  intros Hrec b n r. unfold decode_ref_of.
+  destruct (split b) as [[[[|] c] r']|]; [| |discriminate].
+  - destruct (length c) as [|m].
+    + intros H. injection H as <- <-. constructor.
+    + do 31 (destruct m as [|m]; [discriminate|]). destruct m; [|discriminate].
+      intros H. injection H as <- <-. constructor.
+  - destruct (Nat.ltb 32 (length b - length r')); [discriminate|].
+    destruct (rec b) as [m| | | |] eqn:E; cbn [bind]; try discriminate.
+    intros H. injection H as <- <-. apply (Hrec _ _ E).
+Qed.
+
+Lemma full_go_wf dref fl : (forall b n r, dref b = Ok (n, r) -> dwf_child n) ->
+  forall i elems acc n, Forall dwf_child acc -> (length acc + i = 16)%nat ->
+    full_go dref fl i elems acc = Ok n -> dwf n.
+Proof.
+  intros Hd. induction i as [|i IH]; intros elems acc n Hacc Hlen.
+  - rewrite full_go_O. destruct (split_string elems) as [[v r]|]; [|discriminate].
+    intros H. injection H as <-. split; [|reflexivity]. constructor.
+    + rewrite rev_length. clear - Hlen. lia.
+    + now apply Forall_rev.
+    + destruct v; [left; reflexivity|right; eauto].
+  - rewrite full_go_S. destruct (dref elems) as [[cld rest]| | | |] eqn:E; cbn [bind]; try discriminate.
+    apply IH.
+    + constructor; [exact (Hd _ _ _ E)|exact Hacc].
+    + cbn [length]. clear - Hlen. lia.
+Qed.
+
+Lemma decode_body_wf rec hash buf gen n : (forall b m, rec b = Ok m -> dwf m) ->
+  decode_body rec hash buf gen = Ok n -> dwf n.
+Proof.
+  intros Hrec. unfold decode_body. destruct buf as [|b0 buf']; [discriminate|].
+  destruct (split_list (b0 :: buf')) as [[elems r0]|]; [|discriminate].
+  cbv zeta. destruct (count_or_0 elems =? 2).
+  - destruct (split_string elems) as [[kbuf rest]|]; [|discriminate].
+    destruct (compact_to_hex_shape kbuf) as [Hp|(p & Ep & Hp)].
+    + rewrite (pathb_no_term _ Hp).
+      destruct (decode_ref_of rec rest) as [[r x]| | | |] eqn:E; cbn [bind]; try discriminate.
+      intros H. injection H as <-. split; [|reflexivity].
+      apply dw_ext; [exact Hp|]. exact (decode_ref_of_wf rec Hrec _ _ _ E).
+    + rewrite Ep, has_term_snoc.
+      destruct (split_string rest) as [[v r1]|]; [|discriminate].
+      intros H. injection H as <-. split; [|reflexivity].
+      apply dw_leaf; [apply has_term_snoc|now rewrite removelast_last].
+  - destruct (count_or_0 elems =? 17); [|discriminate].
+    apply full_go_wf; [apply decode_ref_of_wf; exact Hrec|constructor|reflexivity].
+Qed.
+
+Theorem decode_node_wf : forall fuel hash buf gen n, decode_node fuel hash buf gen = Ok n -> dwf n.
+Proof.
+  induction fuel as [|fuel IH]; intros hash buf gen n.
+  - rewrite decode_node_O. discriminate.
+  - rewrite decode_node_S. apply decode_body_wf. intros b m. apply IH.
+Qed.
+
+Corollary decode_node_top_wf : forall hash buf gen n, decode_node_top hash buf gen = Ok n -> dwf n.
+Proof. intros hash buf gen n. apply decode_node_wf. Qed.
+
+(* ------------------------------------------------------------------ proof.go get / VerifyProof never panic *)
+
+Lemma proof_get_O n key : proof_get O n key = GFuel.
+Proof. reflexivity. Qed.
+Lemma proof_get_S fuel n key :
+  proof_get (S fuel) n key =
+    match n with
+    | NShort nk nv _ =>
+      if negb (has_prefix key nk) then GNil else proof_get fuel nv (skipn (length nk) key)
+    | NFull cs _ =>
+      match key with
+      | [] => GPanic
+      | k0 :: krest =>
+        match get_child cs k0 with Ok c => proof_get fuel c krest | _ => GPanic end
+      end
+    | NHash h => GHash key h
+    | NNil => GNil
+    | NVal v => GVal v
+    end.
+Proof. reflexivity. Qed.
+
+(* the walk stops at nil / a value *)
+Lemma proof_get_stop fuel c key : slot16 c \/ (exists v, c = NVal v) ->
+  proof_get fuel c key <> GPanic /\ (forall kr h, proof_get fuel c key <> GHash kr h).
+Proof.
+  intros H. destruct fuel as [|fuel]; [rewrite proof_get_O; split; [|intros kr h]; discriminate|].
+  rewrite proof_get_S.
+  destruct H as [[->|(v & ->)]|(v & ->)]; (split; [|intros kr h]; discriminate).
+Qed.
+
+Lemma proof_get_no_panic : forall fuel n key, dwf_child n -> tkeyb key = true ->
+  proof_get fuel n key <> GPanic /\
+  (forall kr h, proof_get fuel n key = GHash kr h -> tkeyb kr = true).
+Proof.
+  induction fuel as [|fuel IH]; intros n key Hn Hk.
+  - rewrite proof_get_O. split; [|intros kr h]; discriminate.
+  - rewrite proof_get_S.
+    inversion Hn as [|h|nk v f Ht Hp|nk c f Hp Hc|cs16 last f Hl Hf Hs]; subst n.
+    + split; [|intros kr h]; discriminate.
+    + split; [discriminate|]. intros kr h' E. injection E as <- _. exact Hk.
+    + destruct (has_prefix key nk); cbn [negb]; [|split; [|intros kr h]; discriminate].
+      destruct (proof_get_stop fuel (NVal v) (skipn (length nk) key)) as [H1 H2]; [right; eauto|].
+      split; [exact H1|]. intros kr h E. exfalso. exact (H2 _ _ E).
+    + destruct (has_prefix key nk) eqn:Hpre; cbn [negb]; [|split; [|intros kr h]; discriminate].
+      apply IH; [exact Hc|]. now apply tkeyb_skip_path.
+    + destruct key as [|k0 krest]; [discriminate|].
+      apply tkeyb_cons in Hk as [[-> ->]|(_ & Hb & Hkr)].
+      * (* the terminator: slot 16 *)
+        assert (Eg : get_child (cs16 ++ [last]) term = Ok last).
+        { rewrite get_child_ok by (rewrite app_length, Hl, nidx_term; cbn; lia).
+          rewrite nidx_term, app_nth2 by (rewrite Hl; apply le_n).
+          now rewrite Hl, Nat.sub_diag. }
+        rewrite Eg.
+        destruct (proof_get_stop fuel last []) as [H1 H2]; [left; exact Hs|].
+        split; [exact H1|]. intros kr h E. exfalso. exact (H2 _ _ E).
+      * apply nibb_nidx in Hb.
+        assert (Eg : get_child (cs16 ++ [last]) k0 = Ok (nth (nidx k0) cs16 NNil)).
+        { rewrite get_child_ok by (rewrite app_length, Hl; cbn [length]; clear - Hb; lia).
+          now rewrite app_nth1 by (rewrite Hl; exact Hb). }
+        rewrite Eg. apply IH; [|exact Hkr].
+        rewrite Forall_forall in Hf. apply Hf. apply nth_In. rewrite Hl. exact Hb.
+Qed.
+
+Theorem verify_loop_no_panic : forall fuel pdb want key,
+  tkeyb key = true -> verify_loop fuel pdb want key <> Panic.
+Proof.
+  induction fuel as [|fuel IH]; intros pdb want key Hk; [discriminate|].
+  cbn [verify_loop]. destruct (db_get pdb want) as [[|e0 enc]|]; [discriminate| |discriminate].
+  pose proof (decode_node_top_no_panic (Some want) (e0 :: enc) 0) as Hnp.
+  pose proof (decode_node_top_wf (Some want) (e0 :: enc) 0) as Hwf.
+  destruct (decode_node_top (Some want) (e0 :: enc) 0) as [n| | | |]; cbn [bind]; try congruence.
+  destruct (Hwf n eq_refl) as [Hc _].
+  destruct (proof_get_no_panic (2 * length key + 40) n key Hc Hk) as [H1 H2].
+  destruct (proof_get (2 * length key + 40) n key) as [|kr h|v| |]; try congruence; try discriminate.
+  apply IH. exact (H2 kr h eq_refl).
+Qed.
+
+Theorem verify_proof_no_panic : forall root key pdb, verify_proof root key pdb <> Panic.
+Proof. intros. unfold verify_proof. apply verify_loop_no_panic. apply tkeyb_keybytes_to_hex. Qed.
